@@ -181,6 +181,7 @@ def run(ctx):
     check_prefix_family_limits(ctx, f)
     K.check_serial_start(ctx, f)
     check_key_id_follows_key(ctx, f)
+    check_builder_fields_match_attributes(ctx, f)
     # which time form is written: only encode_varied chooses (by year); the manifest profile fixes GeneralizedTime
     for nm, want in (("encode_utc_time", ["repository::x509::Time::encode_varied"]),
                      ("encode_generalized_time", ["repository::manifest::ManifestContent::encode_ref", "repository::x509::Time::encode_varied"])):
@@ -389,3 +390,39 @@ def check_key_id_follows_key(ctx, f):
                    "%s writes %s.%s and %s.%s together, the identifier being key_identifier() of the key it stores"
                    % (short(rf), short(adt), keyf, short(adt), idf), where=b.loc, detail=bad or None)
     ctx.floor("R-SIB", "non-decoder writers of a (subject key, subject key identifier) pair", n_writers, 3)
+
+
+def check_builder_fields_match_attributes(ctx, f):
+    """A built signed object answers its accessors from fields, its decoded twin from the signed attributes.  Wherever a
+    function creates the signed attributes (SignedAttrs::new) and the object around them, each accessor field that names
+    an attribute (content type, message digest, signing time) holds the very value handed to SignedAttrs::new, the
+    `signed_attrs` field is that SignedAttrs value, and what is signed is its encode_verify."""
+    ATTRS = "repository::sigobj::SignedAttrs::new"
+    n = 0
+    for adt in ("repository::sigobj::SignedObject", "ca::sigmsg::SignedMessage"):
+        for bd, bi, si, st in aggregates_of(f, adt):
+            if K.is_derived_body(bd):
+                continue
+            news = [c for c in bd.calls() if c.res == ATTRS and not bd.is_cleanup(c.bb)]
+            if not news:
+                continue            # a decoder: fields and attributes both come from the wire
+            n += 1
+            ctx.saw_fn(bd.name)
+            fields = dict((str(k), render(strip_deep(v))) for k, v in K.sym_of(bd).rvalue(st["rv"])[3])
+            fn = short(root_fn(f, bd.name))
+            if len(news) != 1:
+                ctx.ob("R-SIB", "%s:fields-are-the-signed-attributes" % fn, False,
+                       "%s creates the signed attributes once" % fn, where=bd.where(bi, si), detail=len(news))
+                continue
+            a = K.arg_renders(news[0])
+            roles = {"content_type": a[0], "message_digest": a[1], "signing_time": a[2]}
+            bad = {k: {"field": fields[k], "attribute": v} for k, v in roles.items() if k in fields and fields[k] != v}
+            call = "SignedAttrs::new(%s)" % ", ".join(a)
+            if "signed_attrs" in fields and fields["signed_attrs"] != call:
+                bad["signed_attrs"] = {"field": fields["signed_attrs"][:200], "attribute": call[:200]}
+            if "signature" in fields and ("SignedAttrs::encode_verify(%s)" % call) not in fields["signature"]:
+                bad["signature"] = {"field": fields["signature"][:240], "expected_input": "encode_verify(%s)" % call[:160]}
+            ctx.ob("R-SIB", "%s:fields-are-the-signed-attributes" % fn, not bad,
+                   "%s stores in the object's accessor fields exactly what it put into the signed attributes, and signs their "
+                   "encoding" % fn, where=bd.where(bi, si), detail=bad or None)
+    ctx.floor("R-SIB", "builders creating signed attributes", n, 2)
